@@ -18,7 +18,11 @@ CHECK = {
                   "slot's record cut where the output was cut. Texts are short (<= 14 characters from an alphabet with 1-4 byte characters "
                   "sharing lead bytes) and cut at arbitrary byte offsets, so stop strings and characters straddle pieces all the time; "
                   "no absence proof.",
-    "level_note": "Trusts the scripted model / fake backend of engine runnersim and net/http/httptest. The harness builds the Server literal "
+    "level_note": "Trusts the scripted model / fake backend of engine runnersim, net/http/httptest and (slow-client cases only) testing/synctest: "
+                  "those cases run in a bubble, synctest.Wait() is the exact 'runner blocked on the full response buffer or done, handler "
+                  "blocked in Write' signal at which the stalled client resumes, and the watchdogs run on the bubble's virtual clock (they fire "
+                  "on a deadlock, never on slowness) - no sleep and no wall clock decides anything. Only one stall per request, and the client "
+                  "always ends up reading everything. The harness builds the Server literal "
                   "(unexported fields) and stops Server.run after each case by handing it a sequence that is already past its limit. "
                   "done_reason has one value, 'stop', for stop strings and for EOS: that is the API's vocabulary; 'length' is asserted iff the "
                   "limit ended generation. 'Ends immediately before a stop string and contains none' is asserted as stated; which of two "
@@ -32,20 +36,25 @@ CHECK = {
     "design_ref": "DESIGN.md section 3 'Engine runnersim' / C14, section 4 row 11",
     "targets": [{"name": "TestC14Stream", "build": 0,
                  "quick": {"cases": 30000, "shards": 4, "soft_s": 45},
-                 "thorough": {"cases": 600000, "shards": 16, "soft_s": 400}},
+                 "thorough": {"cases": 400000, "shards": 16, "soft_s": 360}},
                 {"name": "TestC14StopLaws", "build": 1,
                  "quick": {"cases": 50000, "shards": 1, "soft_s": 30},
                  "thorough": {"cases": 1000000, "shards": 4, "soft_s": 300}}],
     "floors": {"stop_hit": 0.2, "stop_straddles_pieces": 0.03, "multibyte_straddles_pieces": 0.06, "limit_hit": 0.06, "eos_hit": 0.1,
-               "invalid_utf8_script": 0.04, "context_shift": 0.03, "law_cut_inside_character": 0.05, "law_stop_straddles_pieces": 0.015},
+               "invalid_utf8_script": 0.04, "context_shift": 0.03, "law_cut_inside_character": 0.05, "law_stop_straddles_pieces": 0.015,
+               "slow_client": 0.03, "slow_client_runner_blocked_on_full_buffer": 0.015, "slow_client_generation_ended_during_stall": 0.01},
     "rule": "rapid-generated: text = 0-14 atoms from {a b c space ab e-acute e-grave U+65E5 euro U+672C U+1F600 sharp-s newline} (1 in 10: 1-3 "
             "invalid byte sequences inserted), cut into 1-11 token pieces at arbitrary byte offsets (empty pieces allowed); 0-3 stop strings "
             "(substrings of the text at character boundaries, extensions / shortenings of earlier stop strings, unrelated atom sequences, "
             "rarely the empty string); EOS after the last piece or not; num_predict in {-1, 0, 1..pieces+2}; num_ctx in {4,6,8,16,64,2048}, "
-            "batch in {1,2,8,512}, prompt 1-4 tokens, num_keep 0-4. Non-trivial = the stop occurrence that ends generation, or a multi-byte "
+            "batch in {1,2,8,512}, prompt 1-4 tokens, num_keep 0-4. About 1 case in 10 has a SLOW CLIENT: a body of 1-2 cheap pieces repeated "
+            "to 100-400 pieces in front of the short script (num_predict moved accordingly, sometimes inside the body) and a response writer "
+            "whose Write blocks from the k-th chunk on (k = 0, 0..40 or anywhere) until the runner cannot move (blocked on the full "
+            "100-entry response buffer, or finished), then accepts everything; same oracle. Non-trivial = the stop occurrence that ends generation, or a multi-byte "
             "character, is split across >= 2 pieces. Distinct = distinct hash of the generated case. Laws target: same texts/pieces/stops, "
             "every byte offset.",
     "assumptions": ["one request at a time on a fresh Server per case (parallel 1, plain causal cache)",
+                    "slow client = a ResponseWriter whose Write blocks; it resumes at bubble quiescence (testing/synctest, go1.26.8)",
                     "scripted model: the k-th sampling returns the k-th piece's token, then EOS (if scripted)",
                     "stop strings are valid UTF-8 (they arrive as JSON)",
                     "llamarunner's streaming loop (cgo) is not executed; it shares runner/common with the loop that is"],
